@@ -15,6 +15,8 @@ pub struct FontInfo {
     pub has_layout: bool,
     pub has_morx: bool,
     pub has_kern: bool,
+    /// indices into SCRIPT_ALPHABETS of the scripts the font maps (first code point of the first range)
+    pub scripts: Vec<usize>,
 }
 
 pub fn load_corpus(limit_chars: usize) -> Vec<FontInfo> {
@@ -25,12 +27,15 @@ pub fn load_corpus(limit_chars: usize) -> Vec<FontInfo> {
         let info = catch(move || {
             Face::from_slice(&d2, 0).map(|f| {
                 let t = f.tables();
-                (cmap_chars(&f, limit_chars), t.gsub.is_some() || t.gpos.is_some(), t.morx.is_some(), t.kern.is_some() || t.kerx.is_some())
+                let scripts: Vec<usize> = (0..SCRIPT_ALPHABETS.len())
+                    .filter(|k| char::from_u32(SCRIPT_ALPHABETS[*k][0].0).and_then(|c| f.glyph_index(c)).is_some())
+                    .collect();
+                (cmap_chars(&f, limit_chars), t.gsub.is_some() || t.gpos.is_some(), t.morx.is_some(), t.kern.is_some() || t.kerx.is_some(), scripts)
             })
         });
-        if let Ok(Some((chars, has_layout, has_morx, has_kern))) = info {
+        if let Ok(Some((chars, has_layout, has_morx, has_kern, scripts))) = info {
             if !chars.is_empty() {
-                out.push(FontInfo { path, data, chars, has_layout, has_morx, has_kern });
+                out.push(FontInfo { path, data, chars, has_layout, has_morx, has_kern, scripts });
             }
         }
     }
@@ -114,7 +119,7 @@ pub fn markish(c: u32) -> bool {
     }
     matches!(c,
         0x300..=0x36F | 0x483..=0x489 | 0x591..=0x5BD | 0x5BF | 0x5C1..=0x5C2 | 0x5C4..=0x5C5 | 0x5C7 | 0x610..=0x61A
-        | 0x64B..=0x65F | 0x670 | 0x6D6..=0x6DC | 0x6DF..=0x6E4 | 0x6E7..=0x6E8 | 0x6EA..=0x6ED | 0x711 | 0x730..=0x74A
+        | 0x64B..=0x65F | 0x670 | 0x6D6..=0x6DC | 0x6DF..=0x6E4 | 0x6E7..=0x6E8 | 0x6EA..=0x6ED | 0x711 | 0x730..=0x74A | 0x8CA..=0x8FF
         | 0xE31 | 0xE34..=0xE3A | 0xE47..=0xE4E | 0xEB1 | 0xEB4..=0xEBC | 0xEC8..=0xECD | 0xF18..=0xF19 | 0xF35 | 0xF37 | 0xF39
         | 0xF71..=0xF84 | 0xF8D..=0xFBC | 0x102B..=0x103E | 0x1056..=0x1059 | 0x105E..=0x1060 | 0x1160..=0x11FF | 0x17B4..=0x17D3
         | 0x180B..=0x180D | 0x1A17..=0x1A1B | 0x1A55..=0x1A7F | 0x1AB0..=0x1AFF | 0x1B00..=0x1B04 | 0x1B34..=0x1B44 | 0x1DC0..=0x1DFF
@@ -159,11 +164,54 @@ pub fn gen_text_structured(r: &mut Rng, chars: &[u32], max_len: usize) -> Vec<u3
     out
 }
 
-/// gen_req with a third of the texts structured (see gen_text_structured).
+/// Script alphabets (code point ranges) for texts that are independent of the font's cmap: the shapers'
+/// text preprocessing (syllable reordering, tone-mark moves, decomposition, dotted-circle insertion,
+/// cluster merging) runs on .notdef glyphs just as well.
+pub const SCRIPT_ALPHABETS: [&[(u32, u32)]; 14] = [
+    &[(0xAC00, 0xAC40), (0x1100, 0x1112), (0x115F, 0x1175), (0x11A7, 0x11C3), (0x302E, 0x302F), (0x302E, 0x302F), (0xD7B0, 0xD7C6), (0xA960, 0xA97C), (0xC2E0, 0xC2FF)], // Hangul
+    &[(0x0905, 0x0939), (0x093A, 0x094F), (0x0951, 0x0957), (0x0900, 0x0903), (0x094D, 0x094D), (0x0930, 0x0930)], // Devanagari
+    &[(0x0985, 0x09B9), (0x09BC, 0x09CD), (0x09D7, 0x09D7), (0x0981, 0x0983)],                                   // Bengali
+    &[(0x0B85, 0x0BB9), (0x0BBE, 0x0BCD), (0x0BD7, 0x0BD7)],                                                     // Tamil
+    &[(0x0D05, 0x0D39), (0x0D3E, 0x0D4D), (0x0D57, 0x0D57), (0x0D7A, 0x0D7F)],                                   // Malayalam
+    &[(0x0D85, 0x0DC6), (0x0DCA, 0x0DDF)],                                                                       // Sinhala
+    &[(0x0E01, 0x0E3A), (0x0E40, 0x0E4E)],                                                                       // Thai
+    &[(0x0E81, 0x0EBD), (0x0EC0, 0x0ECD)],                                                                       // Lao
+    &[(0x0F40, 0x0F6C), (0x0F71, 0x0F84), (0x0F90, 0x0FBC)],                                                     // Tibetan
+    &[(0x1000, 0x1021), (0x102B, 0x103E), (0x1050, 0x1059), (0x1084, 0x1084)],                                   // Myanmar
+    &[(0x1780, 0x17A2), (0x17B6, 0x17D3)],                                                                       // Khmer
+    &[(0x0621, 0x064A), (0x064B, 0x0655), (0x0670, 0x0671), (0x0640, 0x0640), (0x06CC, 0x06D5), (0x0654, 0x0655), (0x08D3, 0x08D3), (0x06E3, 0x06E3)],                 // Arabic
+    &[(0x05D0, 0x05EA), (0x05B0, 0x05BD), (0x05C1, 0x05C2), (0x05F0, 0x05F4)],                                   // Hebrew
+    &[(0x1820, 0x1842), (0x180B, 0x180F), (0x1885, 0x18A9)],                                                     // Mongolian
+];
+
+pub fn gen_text_script(r: &mut Rng, supported: &[usize], max_len: usize) -> Vec<u32> {
+    // mostly a script the font maps (its shaper then sees real glyphs), sometimes any script
+    let k = if !supported.is_empty() && !r.chance(1, 4) { *r.pick(supported) } else { r.below(SCRIPT_ALPHABETS.len() as u64) as usize };
+    gen_text_alphabet(r, k, max_len)
+}
+
+pub fn gen_text_alphabet(r: &mut Rng, k: usize, max_len: usize) -> Vec<u32> {
+    const SPECIAL: [u32; 6] = [0x200C, 0x200D, 0x25CC, 0x034F, 0x00A0, 0x0020];
+    let alpha = SCRIPT_ALPHABETS[k];
+    let n = r.range(2, max_len.max(3) as u64) as usize;
+    let mut out = Vec::with_capacity(n);
+    while out.len() < n {
+        if r.chance(1, 12) {
+            out.push(*r.pick(&SPECIAL));
+        } else {
+            let (lo, hi) = *r.pick(alpha);
+            out.push(lo + r.below((hi - lo + 1) as u64) as u32);
+        }
+    }
+    out
+}
+
+/// gen_req with a third of the texts structured (gen_text_structured) and a sixth from a script alphabet (gen_text_script).
 pub fn gen_req_s(r: &mut Rng, fi: &FontInfo, max_len: usize) -> Req {
     let mut req = gen_req(r, fi, max_len);
-    if r.chance(1, 3) {
-        let text = gen_text_structured(r, &fi.chars, max_len);
+    let k = r.below(6);
+    if k < 3 {
+        let text = if k < 2 { gen_text_structured(r, &fi.chars, max_len) } else { gen_text_script(r, &fi.scripts, max_len) };
         let cl = gen_clusters(r, text.len());
         req.text = text.into_iter().zip(cl.into_iter()).collect();
     }
@@ -226,7 +274,7 @@ pub fn run(args: &[String]) {
             let font = arg_str(args, "--font").unwrap_or("");
             let req = parse_req(arg_str(args, "--req").unwrap_or(""));
             let data = std::fs::read(font).unwrap_or_default();
-            let fi = FontInfo { path: font.to_string(), data, chars: vec![0x41], has_layout: true, has_morx: false, has_kern: false };
+            let fi = FontInfo { path: font.to_string(), data, chars: vec![0x41], has_layout: true, has_morx: false, has_kern: false, scripts: vec![] };
             let mut cnt = Counters::default();
             match prop {
                 "c02" => check_c02(&fi, &req, &mut cnt),
@@ -324,6 +372,25 @@ fn c02(r: &mut Rng, fonts: &[FontInfo], n: u64, tr: &mut Option<std::fs::File>) 
             trace(tr, &format!("kern {} [{}]", fi.path, fmt_req(&req)));
             check_c02(fi, &req, &mut cnt);
             cnt.bump("kern_font_cases");
+        }
+    }
+    // dedicated pass: every (font, script it maps) pair x directions x levels, texts over the script's
+    // alphabet incl. ill-formed sequences (shaper reordering, tone-mark moves, decompositions on real glyphs)
+    for fi in fonts.iter() {
+        for &k in &fi.scripts {
+            for j in 0..12u32 {
+                let mut req = gen_req(r, fi, 8);
+                let text = gen_text_alphabet(r, k, 10);
+                let cl = gen_clusters(r, text.len());
+                req.text = text.into_iter().zip(cl.into_iter()).collect();
+                req.dir = if j % 3 == 0 { None } else { Some(DIRS[(j % 4) as usize]) };
+                req.level = (j % 2) as u8;
+                req.pre.clear();
+                req.post.clear();
+                trace(tr, &format!("script {} {} [{}]", k, fi.path, fmt_req(&req)));
+                check_c02(fi, &req, &mut cnt);
+                cnt.bump("script_pass_cases");
+            }
         }
     }
     for i in 0..n {
@@ -653,11 +720,43 @@ fn c03(r: &mut Rng, fonts: &[FontInfo], n: u64, tr: &mut Option<std::fs::File>) 
 
 // ------------------------------------------------------------------------------------------ C05
 
+/// A generated font whose glyph ids coincide with code points of strong right-to-left letters: ASCII
+/// letters map to glyphs 0x5D0.. (Hebrew) and 0x627.. (Arabic).  Anything of an earlier shaping that a
+/// recycled buffer still exposes (glyph ids where code points are expected) then changes the guessed
+/// script and direction of the next, script-neutral text.
+fn aliasing_font() -> FontInfo {
+    use crate::fontgen::*;
+    let mut spec = FontSpec::basic(0x700);
+    let mut cmap: Vec<(u32, u16)> = Vec::new();
+    for i in 0..26u32 {
+        cmap.push((0x41 + i, (0x627 + i) as u16));
+        cmap.push((0x61 + i, (0x5D0 + i) as u16));
+    }
+    for i in 0..16u32 {
+        cmap.push((0x20 + i, (0x20 + i) as u16));
+        cmap.push((0x30 + i, (0x30 + i) as u16));
+    }
+    cmap.sort();
+    spec.cmap = cmap;
+    let data = build(&spec);
+    let mut path = "generated:aliasing".to_string();
+    if let Ok(dir) = std::env::var("RBV_DUMP_DIR") {
+        let p = format!("{}/generated-aliasing.ttf", dir);
+        let _ = std::fs::create_dir_all(&dir);
+        if std::fs::write(&p, &data).is_ok() {
+            path = p;
+        }
+    }
+    let chars: Vec<u32> = spec.cmap.iter().map(|x| x.0).collect();
+    FontInfo { path, data, chars, has_layout: false, has_morx: false, has_kern: false, scripts: vec![] }
+}
+
 fn c05(r: &mut Rng, fonts: &[FontInfo], n: u64, tr: &mut Option<std::fs::File>) {
     let mut cnt = Counters::default();
+    let alias = aliasing_font();
     // (a) histories on one recycled buffer vs fresh buffers
     for i in 0..n {
-        let fi = &fonts[r.below(fonts.len() as u64) as usize];
+        let fi = if i % 4 == 3 { &alias } else { &fonts[r.below(fonts.len() as u64) as usize] };
         let Some(face) = Face::from_slice(&fi.data, 0) else { continue };
         let steps = r.range(2, 6);
         let mut reqs: Vec<Req> = Vec::new();
@@ -849,6 +948,27 @@ fn c01(r: &mut Rng, fonts: &[FontInfo], n: u64, tr: &mut Option<std::fs::File>, 
                 let c = *r.pick(&fi.chars);
                 let k = *r.pick(&[200usize, 1000, 5000]);
                 req.text = (0..k).map(|j| (c, j as u32)).collect();
+            }
+            5 | 6 => {
+                // a base of a script with a dedicated shaper followed by a long run of one or two of its
+                // combining marks (beyond every fixed-size scratch array and sort bound), then more text
+                let alpha = *r.pick(&SCRIPT_ALPHABETS);
+                let pick = |r: &mut Rng| { let (lo, hi) = *r.pick(alpha); lo + r.below((hi - lo + 1) as u64) as u32 };
+                let mut marks: Vec<u32> = (0..64).map(|_| pick(r)).filter(|c| markish(*c)).collect();
+                if marks.is_empty() {
+                    marks.push(0x0301);
+                }
+                let base = (0..64).map(|_| pick(r)).find(|c| !markish(*c)).unwrap_or(0x25CC);
+                let m1 = *r.pick(&marks);
+                let m2 = if r.chance(1, 2) { m1 } else { *r.pick(&marks) };
+                let k = *r.pick(&[31usize, 32, 33, 34, 40, 64, 65, 100, 300]);
+                let mut t = vec![base];
+                for j in 0..k {
+                    t.push(if j % 2 == 0 { m1 } else { m2 });
+                }
+                t.push(base);
+                t.push(m1);
+                req.text = t.into_iter().enumerate().map(|(j, c)| (c, j as u32)).collect();
             }
             2 => req.features = vec![format!("aalt={}", r.below(80000)), "rand=7".into()],
             3 => req.features = vec![format!("ss01[{}:{}]", r.below(10), r.below(10)), "kern[3:1]=0".into()],
